@@ -43,6 +43,22 @@ def bounded(tier, seed):
         r = check_grid(g)
         if r and len(failures) < 15:
             failures.append({'id': 'C04/' + label, 'what': r, 'input': {'kind': 'catalogue', 'label': label, 'seed': seed, 'tier': tier}})
+
+    # one fixed-offset tzinfo object across seasons (a history within one process): every stamp must name a zone that fits its date
+    import re as _re
+    import hszinc as _h
+    for hist in VC.fixed_offset_history():
+        for ver in ('2.0', '3.0'):
+            cases += 1
+            g = VC.grid_of(list(hist), ver)
+            try:
+                text = _h.dump(g, mode=_h.MODE_ZINC)
+            except ValueError:
+                continue
+            for iso, zn in _re.findall(r'(\d{4}-\d{2}-\d{2}T[0-9:.]+[+-]\d{2}:\d{2}) ([A-Za-z0-9_+\-]+)', text):
+                bad = VC.stamp_consistent(iso, zn)
+                if bad and len(failures) < 15:
+                    failures.append({'id': 'C04/zone-history', 'what': bad, 'input': {'kind': 'zone_history', 'offset': str(hist[0].utcoffset())}})
     # every code point class boundary through Str and Uri
     import hszinc
     from hszinc import Uri, Ref
@@ -58,6 +74,10 @@ def bounded(tier, seed):
 
 
 def replay(inp):
+    if inp.get('kind') == 'zone_history':
+        r = bounded('quick', 0)
+        fl = [f for f in r['failures'] if f['id'].endswith('/zone-history')]
+        return {'reproduced': bool(fl), 'detail': [f['what'] for f in fl[:3]]}
     import hszinc
     from hszinc import Uri, Ref
     k = inp.get('kind')
